@@ -19,4 +19,5 @@ def run(ctx):
     ds.run_hist_stream(ctx, 5 if quick else 60, 6, props={'C02'}, weights={'deploy': 1}, stream='readd_after_removal', plan_script=ds.hist_readd_after_removal, setup=ds.setup_two_roots)
     ds.run_cli_stream(ctx, 5 if quick else 80, 3, props={'C02'}, stream='hidden_user_files', script=ds.script_remove_with_hidden_user_files, setup=ds.setup_all_targets)
     ds.run_cli_stream(ctx, 5 if quick else 80, 3, props={'C02'}, stream='foreign_manifest', script=ds.script_foreign_manifest, setup=ds.setup_all_targets)
+    ds.run_hist_stream(ctx, 5 if quick else 60, 4, props={'C02'}, weights={'deploy': 1}, stream='fallback_after_rollback', plan_script=ds.hist_fallback_after_rollback, setup=ds.setup_two_roots)
     ds.run_lib_stream(ctx, 250 if quick else 4000, props={'C02'})
